@@ -346,6 +346,95 @@ example : shouldCombine { id := 1, btype := 2, ctxs := [⟨1, 0, 0⟩], group :=
     shouldCombine { id := 1, btype := 2, ctxs := [⟨1, 0, 3⟩], group := 3 } = true ∧
     shouldCombine { id := 1, btype := 2, ctxs := [⟨1, 1, 0⟩] } = true := by decide
 
+/-! ### Every attempt: a combined run that fails and is retried
+
+`taskHandleHookRun` writes the combine result back into the head task (`t.UpdateMetadata(hookMeta)`);
+the merged tasks are gone from the queue by then. When the hook fails the same task is handled again,
+possibly with new tasks behind it. -/
+
+/-- `hookMeta.BindingContext = combineResult.BindingContexts; if len(MonitorIDs) > 0 {…};
+t.UpdateMetadata(hookMeta)` — the head task as it stays in the queue; also what the hook is run with. -/
+def writeBack (t : Task) : Outcome → Task
+  | .res c m => { t with ctxs := c, mons := if m.length > 0 then m else t.mons }
+  | _ => t
+
+theorem combinable_writeBack (t : Task) (o : Outcome) (f : Option (Task → Bool)) :
+    combinable (writeBack t o) f = combinable t f := by
+  cases o <;> rfl
+
+/-- **`retry_receives_all`**: the head task `t` of `t :: rest` was executed combined with a non-empty
+run (first attempt), the result was written back, the hook failed; meanwhile the tasks `app` (fresh
+ids) were appended. On the next attempt the hook receives the compaction of the concatenation, in
+queue order, of the contexts of `t`, of the run merged by the first attempt and of the run merged
+now — nothing merged earlier is lost, whether or not there is anything new to merge — and the queue
+is the written-back head followed by what the second run leaves. -/
+theorem retry_receives_all (qs qs2 : QSet) (t : Task) (rest app : List Task) (f : Option (Task → Bool))
+    (hq : qs.get t.queue = some (t :: rest)) (hm : t.hasMeta = true)
+    (nd : ((t :: (rest ++ app)).map (·.id)).Nodup)
+    (hne : merged t f rest ≠ [])
+    (hq2 : qs2.get t.queue =
+      some (writeBack t (combineGo qs (some t.queue) t f id).1 :: (rest.dropWhile (combinable t f) ++ app))) :
+    let t1 := writeBack t (combineGo qs (some t.queue) t f id).1
+    let rest2 := rest.dropWhile (combinable t f) ++ app
+    (writeBack t1 (combineGo qs2 (some t.queue) t1 f id).1).ctxs
+        = compact (t.ctxs ++ (merged t f rest).flatMap (·.ctxs) ++ (merged t f rest2).flatMap (·.ctxs)) ∧
+      (combineGo qs2 (some t.queue) t1 f id).2.get t.queue = some (t1 :: rest2.dropWhile (combinable t f)) := by
+  have nd1 : ((t :: rest).map (·.id)).Nodup := by
+    refine List.Nodup.sublist ?_ nd
+    simp only [List.map_cons, List.map_append]
+    exact List.Sublist.cons_cons _ (List.sublist_append_left _ _)
+  have h1 := combine_result qs t rest f hq hm nd1
+  intro t1 rest2
+  have ht1 : t1 = writeBack t (specOutcome t f rest) := by
+    show writeBack t (combineGo qs (some t.queue) t f id).1 = _
+    rw [h1]
+  have hspec : specOutcome t f rest = .res (contexts t (merged t f rest)) (monitors t (merged t f rest)) := by
+    simp [specOutcome, hne]
+  have hctx : t1.ctxs = compact (t.ctxs ++ (merged t f rest).flatMap (·.ctxs)) := by
+    rw [ht1, hspec]; rfl
+  have hqn : t1.queue = t.queue := by rw [ht1, hspec]; rfl
+  have hid : t1.id = t.id := by rw [ht1, hspec]; rfl
+  have hm1 : t1.hasMeta = true := by rw [ht1, hspec]; exact hm
+  have hcomb : combinable t1 f = combinable t f := by rw [ht1]; exact combinable_writeBack t _ f
+  have hmerged : merged t1 f rest2 = merged t f rest2 := by simp [merged, hcomb]
+  have hr2 : rest2 = rest.dropWhile (combinable t f) ++ app := rfl
+  have nd2 : ((t1 :: rest2).map (·.id)).Nodup := by
+    refine List.Nodup.sublist ?_ nd
+    simp only [List.map_cons, List.map_append, hid, hr2]
+    exact List.Sublist.cons_cons _ (List.Sublist.append (List.Sublist.map _ (List.dropWhile_sublist _)) (List.Sublist.refl _))
+  have hq2' : qs2.get t1.queue = some (t1 :: rest2) := by rw [hqn]; exact hq2
+  have h2 := combine_result qs2 t1 rest2 f hq2' hm1 nd2
+  rw [hqn] at h2
+  rw [h2]
+  by_cases he : merged t f rest2 = []
+  · have he1 : merged t1 f rest2 = [] := by rw [hmerged]; exact he
+    have hdw : rest2.dropWhile (combinable t f) = rest2 := by
+      have := List.takeWhile_append_dropWhile (p := combinable t f) (l := rest2)
+      simp only [merged] at he
+      rw [he] at this
+      simpa using this
+    simp only [specOutcome, he1, if_true, writeBack, he, List.flatMap_nil, List.append_nil, hctx, hdw]
+    exact ⟨trivial, hq2⟩
+  · have he1 : merged t1 f rest2 ≠ [] := by rw [hmerged]; exact he
+    refine ⟨?_, ?_⟩
+    · simp only [specOutcome, hmerged, he, if_false, writeBack, contexts, hctx]
+      rw [compact_append_compact]
+    · simp only [he1, if_false]
+      rw [QSet.get_set_same qs2 t.queue _ _ hq2]
+      simp [remainder, hcomb]
+
+example : ∃ (qs qs2 : QSet) (t : Task) (rest app : List Task),
+    qs.get t.queue = some (t :: rest) ∧ merged t none rest ≠ [] ∧
+    qs2.get t.queue = some (writeBack t (combineGo qs (some t.queue) t none id).1 :: (rest.dropWhile (combinable t none) ++ app)) ∧
+    (writeBack (writeBack t (combineGo qs (some t.queue) t none id).1)
+      (combineGo qs2 (some t.queue) (writeBack t (combineGo qs (some t.queue) t none id).1) none id).1).ctxs
+      = [⟨2, 3, 1⟩, ⟨3, 3, 0⟩, ⟨5, 3, 1⟩] :=
+  ⟨[(0, [{ id := 1, ctxs := [⟨1, 3, 1⟩] }, { id := 2, ctxs := [⟨2, 3, 1⟩] }, { id := 3, ctxs := [⟨3, 3, 0⟩] }])],
+   [(0, [{ id := 1, ctxs := [⟨2, 3, 1⟩, ⟨3, 3, 0⟩] }, { id := 5, ctxs := [⟨5, 3, 1⟩] }, { id := 6, hook := 1 }])],
+   { id := 1, ctxs := [⟨1, 3, 1⟩] },
+   [{ id := 2, ctxs := [⟨2, 3, 1⟩] }, { id := 3, ctxs := [⟨3, 3, 0⟩] }],
+   [{ id := 5, ctxs := [⟨5, 3, 1⟩] }, { id := 6, hook := 1 }], by decide⟩
+
 /-! ### A run that is not a queue task merges nothing
 
 The admission and conversion handlers run a hook through `taskHandleHookRun` with a task that is in
